@@ -525,11 +525,12 @@ func (lb *LoadBalancer) RemoveBackend(name string) {
 	lb.mutex.Lock()
 	defer lb.mutex.Unlock()
 
-	// Find the backend by name
+	// Remove every backend of that name: names are not unique (AddBackend
+	// accepts a name that is already present), and once RemoveBackend returns
+	// no backend of that name may be listed or receive new requests.
 	for _, backend := range lb.strategy.GetBackends() {
 		if backend.Name == name {
 			lb.strategy.RemoveBackend(backend)
-			break
 		}
 	}
 }
